@@ -234,8 +234,9 @@ ALL_FEATS = {'metadata', 'xref', 'crypt', 'crypt-noparms', 'dictstr', 'metadata-
 
 def plan(tier):
     if tier == 'quick':
-        return [('v1', 6), ('v2', 10), ('v4', 22), ('r5', 6), ('v5', 1), ('v4-eff', 1), ('v4-dparr', 3), ('direct', 2)]
-    return [('v1', 150), ('v2', 400), ('v4', 700), ('r5', 200), ('v5', 40), ('v4-eff', 10), ('v4-dparr', 10), ('direct', 20)]
+        return [('v1', 6), ('v2', 10), ('v4', 22), ('r5', 6), ('v5', 1), ('v4-eff', 1), ('v4-dparr', 3), ('direct', 2), ('len256', 2)]
+    return [('v1', 150), ('v2', 400), ('v4', 700), ('r5', 200), ('v5', 40), ('v4-eff', 10), ('v4-dparr', 10), ('direct', 20),
+            ('len256', 20)]
 
 
 def gen_cases(rng, tier):
@@ -244,7 +245,10 @@ def gen_cases(rng, tier):
     specs = []
     for kind, n in plan(tier):
         for _ in range(n):
-            vkind = rng.choice(['v1', 'v2', 'v4', 'r5']) if kind == 'direct' else kind
+            # len256: a V 5 dictionary with the entry Length 256 that Acrobat / qpdf write (fixed in /repo d4c3304: it was
+            # refused with InvalidKeyLength); mostly revision 5, whose hash is cheap in the extracted specification
+            vkind = rng.choice(['v1', 'v2', 'v4', 'r5']) if kind == 'direct' else \
+                (('v5' if tier != 'quick' and rng.random() < 0.2 else 'r5') if kind == 'len256' else kind)
             mk, limit, cf_names, vfeats = gen_version(rng, vkind)
             owner, user, wrongs = gen_pws(rng, limit, vkind in ('r5', 'v5'))
             force = {'v4-eff': 'embedded', 'v4-dparr': 'crypt-array'}.get(kind)
@@ -252,9 +256,12 @@ def gen_cases(rng, tier):
             ver = mk(owner, user)
             rnd = [rbytes(rng, 16), rbytes(rng, 16), rbytes(rng, 4)]
             ivs = [rbytes(rng, 16) for _ in range(90)]
-            opts = {'v4-eff': [L('eff', xb(b'Other'))], 'direct': ['direct']}.get(kind, [])
+            opts = {'v4-eff': [L('eff', xb(b'Other'))], 'direct': ['direct'],
+                    'len256': ['len256'] + (['direct'] if rng.random() < 0.3 else [])}.get(kind, [])
             if kind == 'direct':
                 vfeats = vfeats | {'direct-encrypt'}
+            if kind == 'len256':
+                vfeats = vfeats | {'v5-length-256'}
             enc_line = L('enc', doc, ver, L('rnd', *[xb(b) for b in rnd]), L('ivs', *[xb(b) for b in ivs]),
                          *([L('opts', *opts)] if opts else []))
             specs.append({'kind': kind, 'vkind': vkind, 'doc': doc, 'ver': ver, 'enc': enc_line, 'owner': owner, 'user': user,
@@ -274,7 +281,7 @@ def gen_cases(rng, tier):
         pws = [('right', s['user'])] + ([('right', s['owner'])] if has_owner and s['owner'] != s['user'] else []) \
             + [('wrong', w) for w in s['wrongs']]
         tags = {'kind': s['kind'], 'nontrivial': True, 'feats': sorted(s['feats']), 'no_owner': not s['owner']}
-        if s['kind'] == 'v5':
+        if s['vkind'] == 'v5':
             # Algorithm 2.B costs seconds per hash in the extracted specification: one line per piece of work
             parts = [([], [])] + [([p], ['noreenc']) for p in pws[:3]]
         elif s['special']:
